@@ -88,6 +88,19 @@ def api_systems(rng, quick):
             prims = [(top[0], top[1], top[2] * 10.0 + 2.0, top[3])] + prims[:-1]
         lines.append("ecp 0 %d %s" % (len(prims), " ".join("%d %d %r %r" % p for p in prims)))
         out.append((lines, max(coefs) ** 2 * sum(abs(p[3]) for p in prims)))
+    # compact shells 4-6 bohr from an ECP whose local part is tight and listed first while its projectors are diffuse: the pair is well
+    # inside the range of the projectors; the distance screen must take the smallest exponent of the WHOLE ECP, in whatever order it came
+    for _ in range(3 if quick else 12):
+        r = rng.uniform(4.0, 6.0)
+        d = pl.rand_dir(rng)
+        g = [0.0, 0.0, 0.0] + [r * x for x in d]
+        lines = ["reset", "atoms 2", "geom 0 " + " ".join("%r" % x for x in g), "geom 1 " + " ".join("%r" % (6.0 * x) for x in g)]
+        sh = [(0, rng.uniform(1.5, 4.0), rng.uniform(0.5, 1.2)), (1, rng.uniform(1.5, 3.0), rng.uniform(0.5, 1.2))]
+        for l, e, c in sh:
+            lines.append("shell 1 %d 1 %r %r" % (l, e, c))
+        prims = [(2, 2, rng.uniform(3.0, 6.0), rng.uniform(0.5, 2.0)), (2, 0, rng.uniform(0.2, 0.4), rng.uniform(2.0, 8.0)), (2, 1, rng.uniform(0.4, 0.8), rng.uniform(2.0, 8.0))]
+        lines.append("ecp 0 %d %s" % (len(prims), " ".join("%d %d %r %r" % p for p in prims)))
+        out.append((lines, max(c for _, _, c in sh) ** 2 * sum(abs(p[3]) for p in prims)))
     return out
 
 
